@@ -7,6 +7,7 @@ CFG = {
     "corr": ["CorrC20"],
     "families": {
         "enc": {"header": _H, "model_fn": "model_enc", "rule": "F"},
+        "encrl": {"header": _H, "model_fn": "model_encrl", "rule": "F"},
         "dec": {"header": _H, "model_fn": "model_dec", "rule": "F"},
         "json": {"header": _H, "model_fn": "model_json", "rule": "F"},
         "jsontext": {"header": _H, "model_fn": "model_jsontext", "rule": "O"},
@@ -14,16 +15,23 @@ CFG = {
     },
     "exhaustive_when": "exhaustive_le2_in_model",
     "rule_text": "cases = one string through b64_encode x 4 engine selections, each text back through b64_decode, urlencode and "
-                 "urlencode_strict (enc); (url_safe, text) through b64_decode (dec); (value, pretty) through json_encode compared as "
+                 "urlencode_strict (enc; encrl = the same on long strings, input and all implementation texts printed in run-length "
+                 "form and expanded in Coq, so the comparison is still element by element); (url_safe, text) through b64_decode (dec); "
+                 "(value, pretty) through json_encode compared as "
                  "data (json) and byte for byte with map entries in the map's own iteration order (jsontext); a string through slug with "
                  "deunicode_char tabulated per case (slug); distinct by the Gallina term of the case. Non-trivial = a non-empty string "
-                 "with a character outside [A-Za-z0-9._~/-] (enc); a non-empty text that is not the canonical padded encoding of its own "
+                 "with a character outside [A-Za-z0-9._~/-] (enc); at least 3 bytes (encrl); a non-empty text that is not the canonical padded encoding of its own "
                  "decoding, i.e. every error and every unpadded / partly padded text (dec); a non-empty container or bytes value, a "
                  "string needing an escape, a float, or an integer outside the i64 range (json, jsontext); an input with at least one "
-                 "[a-z0-9] character and at least one other character (slug). Exhaustive sub-space: every valid UTF-8 string of at most "
+                 "[a-z0-9] character and at least one other character (slug). Exhaustive sub-spaces: every valid UTF-8 string of at most "
                  "two bytes (18433 strings) - in the thorough tier all of them are evaluated by the model, in the quick tier all of them "
-                 "by the implementation-side oracles (reference RFC 4648 decoder, strict percent-decoder, alphabet checks) and a seeded "
-                 "sample by the model; the rest hand-picked boundary strings and seeded random Unicode strings / values.",
+                 "by the implementation-side oracles (reference RFC 4648 decoder, strict percent-decoder, alphabet and canonical-length checks) and a seeded "
+                 "sample by the model; '%' followed by every pair of ASCII bytes (16384 strings, oracle side, every run). Length classes: "
+                 "every byte length 0..520 and k*B-4..k*B+4 for B in {3,4,57,64,76,1024,4096,8192,65536}, k = 1..8 (up to 270 KB) plus 100-260 KB "
+                 "inputs, ASCII and 1-4-byte characters, all four engine/padding options, through the oracles on every run; k*B-3..k*B+3 for "
+                 "k in {1,2} (quick) / {1,2,3,5} (thorough) also through the model. '%'-classes: '%' followed by 0, 1, 2 hex digits of "
+                 "either case, '%%', already-encoded text, and the filters' own output fed back in (double encoding). The rest hand-picked "
+                 "boundary strings and seeded random Unicode strings / values.",
     "trusted_base": TB_COMMON + [
         "axioms: none (every C20 theorem is 'Closed under the global context')",
         "tools/gen/codec.py (T-gen): the AsciiSet chains of urlencode.rs (flattened to base set + add/remove list) and which set each "
